@@ -107,14 +107,67 @@ def ref_gram(A, n):
     return Xn @ Xn.T
 
 
-def mk_obj(rep, x):
+# Storage dtypes other than float64.  pyttb keeps the dtype of the array it is given (tensor data,
+# sptensor vals, ttensor core); ktensor accepts float factors / weights only; a bool tensor cannot be
+# unfolded (tenmat refuses it), so bool occurs for sptensor only.  (lo, hi) are magnitudes for which a
+# sum of products overflows the dtype while X_(n) X_(n)^T stays far below 2^53 (float32: exact).
+DTYPES = {
+    "uint8": (0, 255), "int8": (-128, 127), "int16": (-30000, 30000), "int32": (-50000, 50000),
+    "int64": (-1000000, 1000000), "float32": (-9, 9), "bool": (0, 1),
+}
+NONFLOAT = tuple(DTYPES)
+DTYPE_REPS = {"dense": [d for d in DTYPES if d != "bool"], "sparse": list(DTYPES),
+              "ttensor": [d for d in DTYPES if d != "bool"], "ttensor_sp": ["int16", "int32", "float32"]}
+
+
+def np_dtype(name):
+    return np.dtype(name or "float64")
+
+
+def dtype_values(rng, dname, n, zero_share=0.2):
+    lo, hi = DTYPES[dname]
+    out = []
+    for _ in range(n):
+        u = rng.random()
+        if u < zero_share:
+            out.append(0)
+        elif u < 0.75:   # near the ends of the range: products and sums leave the dtype
+            v = rng.choice([lo, hi]) if lo < 0 else hi
+            out.append(int(v - (rng.randint(0, max(1, abs(hi) // 8)) if v > 0 else -rng.randint(0, max(1, abs(lo) // 8)))))
+        else:
+            out.append(rng.randint(lo, hi))
+    if dname == "bool":
+        out = [1 if v else 0 for v in out]
+    if not any(out):
+        out[0] = hi
+    return out
+
+
+def gen_x_dtype(rng, rep, s, dname):
     if rep == "dense":
-        return gen.mk_tensor(ttb, x["shape"], x["data"])
+        return {"shape": s, "data": dtype_values(rng, dname, gen.numel(s))}
     if rep == "sparse":
-        return gen.mk_sptensor(ttb, x["shape"], x["subs"], x["vals"])
+        return dense_to_sparse_x(rng, s, dtype_values(rng, dname, gen.numel(s), rng.choice([0.2, 0.5])))
+    cs = [rng.randint(1, min(k, 3)) for k in s]
+    return {"core": {"shape": cs, "data": dtype_values(rng, dname, gen.numel(cs))},
+            "factors": [[[rng.choice([-1, 0, 1, 1]) for _ in range(c)] for _ in range(k)] for k, c in zip(s, cs)]}
+
+
+def mk_dense_dt(shape_, data, dname):
+    return ttb.tensor(np.array(data).reshape(tuple(shape_), order="F").astype(np_dtype(dname)), copy=True)
+
+
+def mk_obj(rep, x, dname=None):
+    if rep == "dense":
+        return mk_dense_dt(x["shape"], x["data"], dname)
+    if rep == "sparse":
+        if len(x["subs"]) == 0:
+            return ttb.sptensor(shape=tuple(x["shape"]))
+        return ttb.sptensor(np.array(x["subs"], dtype=int),
+                            np.array(x["vals"]).reshape(-1, 1).astype(np_dtype(dname)), tuple(x["shape"]))
     if rep == "ktensor":
         return gen.mk_ktensor(ttb, x["weights"], x["factors"])
-    core = gen.mk_tensor(ttb, x["core"]["shape"], x["core"]["data"])
+    core = mk_dense_dt(x["core"]["shape"], x["core"]["data"], dname)
     if rep == "ttensor_sp":
         core = core.to_sptensor()
     facs = [np.array(f, dtype=float).reshape(len(f), x["core"]["shape"][k]) for k, f in enumerate(x["factors"])]
@@ -257,6 +310,23 @@ class Gram(Family):
                 for n in range(len(s)):
                     for r in rs_for(rng, s[n], tier):
                         out.append({"rep": rep, "x": x, "n": n, "r": r, "flipsign": rng.random() < 0.5})
+        # storage dtypes other than float64, magnitudes that overflow the dtype in a sum of products
+        for rep, dnames in DTYPE_REPS.items():
+            for dname in dnames:
+                shapes = [[3, 4], [4, 2, 3]] + [gen_shape(rng, tier) for _ in range(1 if tier == "quick" else 8)]
+                for s in shapes:
+                    if rep.startswith("ttensor") and len(s) > 3:
+                        s = s[:3]
+                    if rep == "sparse" and all(e == 1 for e in s):
+                        continue
+                    x = gen_x_dtype(rng, rep, list(s), dname)
+                    for n in range(len(s)):
+                        rs = rs_for(rng, s[n], tier)
+                        if tier == "quick" and len(rs) > 2:
+                            rs = [rs[0], rs[-1]]
+                        for r in rs:
+                            out.append({"rep": rep, "x": x, "n": n, "r": r, "flipsign": rng.random() < 0.5,
+                                        "dtype": dname})
         return out
 
     def evaluate(self, cases):
@@ -264,7 +334,7 @@ class Gram(Family):
         for c in cases:
             rep, x, n, r = c["rep"], c["x"], c["n"], c["r"]
             with Solvers() as rec:
-                res = call(lambda: mk_obj(rep, x).nvecs(n, r, flipsign=c["flipsign"]))
+                res = call(lambda: mk_obj(rep, x, c.get("dtype")).nvecs(n, r, flipsign=c["flipsign"]))
             impls.append((res, rec.calls))
             mrep = "ttensor" if rep == "ttensor_sp" else rep
             reqs.append({"op": "nvecs_gram", "rep": mrep, "X": x, "n": n})
@@ -277,7 +347,8 @@ class Gram(Family):
             mg, mpath = models[2 * k], models[2 * k + 1]
             s = shape_of(rep, x)
             m = s[n]
-            tags = [rep, f"N{len(s)}", f"path-{path_of(m, r)}", "singleton-mode" if 1 in s else "no-singleton"]
+            tags = [rep, f"N{len(s)}", f"path-{path_of(m, r)}", "singleton-mode" if 1 in s else "no-singleton",
+                    "dtype-" + (c.get("dtype") or "float64")]
             A = ARR[rep](x, dtype=object)  # exact integer arithmetic
             G_ref = jval(np.array(ref_gram(A, n), dtype=object).tolist())
             info = {"calls": [(cl["solver"], cl["argtype"]) for cl in calls]}
